@@ -35,11 +35,18 @@ def call_decompose(case, y=None, cols=None, w="same", **over):
         kw["level"] = lv
     try:
         sf = over.get("sf") or make_sf(case)
-        X = np.array(cols[0], dtype=float) if len(cols) == 1 and not over.get("force_2d") else np.array(cols, dtype=float).T
+        names = over.get("colnames", case.get("colnames"))
+        if names is not None and len(names) == len(cols):
+            import polars as pl
+
+            X = pl.DataFrame({nm: [float(v) for v in c] for nm, c in zip(names, cols)})
+        else:
+            X = np.array(cols[0], dtype=float) if len(cols) == 1 and not over.get("force_2d") else np.array(cols, dtype=float).T
         df = decompose(np.array(y, dtype=float), X, None if w is None else np.array(w, dtype=float), scoring_function=sf, **kw)
     except Exception as e:
         return {"err": exc_class(e), "msg": str(e)[:160]}
-    return {"rows": [[float(r[c]) for c in ("miscalibration", "discrimination", "uncertainty", "score")] for r in df.iter_rows(named=True)]}
+    return {"rows": [[float(r[c]) for c in ("miscalibration", "discrimination", "uncertainty", "score")] for r in df.iter_rows(named=True)],
+            "models": [r.get("model") for r in df.iter_rows(named=True)]}
 
 
 def decompose_request(case):
@@ -83,6 +90,10 @@ def compare_rows(case, io, mo, tol=1e-9):
     names = ["miscalibration", "discrimination", "uncertainty", "score"]
     if len(io["rows"]) != len(mo["rows"]):
         return "number of rows differs"
+    if len(case["cols"]) > 1:
+        want = case.get("colnames") or [str(k) for k in range(len(case["cols"]))]
+        if io.get("models") != want:
+            return f"model labels {io.get('models')} vs columns {want}"
     for k, (ra, rb) in enumerate(zip(io["rows"], mo["rows"])):
         for nm, a, b in zip(names, ra, rb):
             b = bits2f(b)
@@ -139,6 +150,20 @@ def gen_data(rng, cfg, n, ncols=1, zeros=True):
             ys = [rng.randint(0 if (y_zero_ok and zeros) else 1, 10) / 2 for _ in range(n)]
         cols = [[rng.randint(1, 12) / 2 for _ in range(n)] for _ in range(ncols)]
     return ys, cols
+
+
+NAME_POOL = ["xgboost", "glm", "trivial", "new", "baseline", "old", "zeta", "Alpha", "m10", "m2", "b", "a"]
+
+
+def gen_colnames(rng, ncols):
+    """column names that are NOT in sorted order (labels must follow the columns, not the sorted names)"""
+    if ncols < 2 or rng.random() < 0.3:
+        return None
+    for _ in range(20):
+        names = rng.sample(NAME_POOL, ncols)
+        if names != sorted(names):
+            return names
+    return None
 
 
 def gen_weights(rng, n):
